@@ -1,7 +1,7 @@
 import WsVerif.Model.Proto
 import WsVerif.Model.History
 /-! Driver op for operation histories (C17, C18): `history n op…` with ops encoded as tokens
-    `sd:<name>` `sa:<name>` `ee` `ad` `pt:<mk>:<mth>` `al:<key>` `us` `rd` `ro:<v>`; returns, per step, `-` or
+    `sd:<name>` `sa:<name>` `ee` `ad` `pt:<mk>:<mth>` `al:<key>` `us` `rd` `ro:<v>` `fo:<what>`; returns, per step, `-` or
     `efthVer:dirVer:attrKnown` under the repaired semantics. -/
 namespace WS.Ops.History
 open WS WS.Proto WS.History
@@ -19,6 +19,7 @@ def parseOp (t : String) : Except String Op :=
   | ["al", k] => pure (.attrLookup k)
   | ["us"] => pure .unknownStat
   | ["rd"] => pure .read
+  | ["fo", w] => pure (.foreign w)
   | ["ro", v] => match v.toNat? with
     | some x => pure (.readObs x)
     | none => throw "bad ro"
